@@ -49,7 +49,7 @@ BROKER = {
             'recorded known finding (full statement refuted, partial proved). Publisher scripts with drops, failing sends and ack modes are replayed against the real broker.',
             'Lean 4 proof (per-step theorems on the processor model) + trace conformance'),
     'C08': ('Recorded-before-sent, kept-until-acknowledged (frame theorems: only PUBACK/PUBCOMP delete, PUBREC replaces by PUBREL), resend of exactly the stored packets in store order with DUP, '
-            'session-present iff stored state was resumed, clean start discards, offline queueing up to capacity: Lean theorems for every state; subscriber scripts with cuts at every point are replayed against the real broker.',
+            'session-present iff stored state was resumed, clean start discards, offline queueing up to capacity; a delivery takes a packet id no stored packet uses, so nothing is overwritten (fresh_id_unused): Lean theorems for every state; subscriber scripts with cuts at every point and one full packet-id wrap-around (65535 deliveries against a withheld acknowledgement) are replayed against the real broker.',
             'Lean 4 proof (frame/invariant theorems on the outbound model) + trace conformance'),
     'C11': ('The retained store refines the map "last non-empty retained publish per topic" for every publish history; a subscription is handed exactly the retained messages whose topics its filter matches (via search_correct), '
             'flagged retained; live copies have the flag cleared: Lean theorems; retained/clear/will histories with every filter of the filter set are replayed against the real broker.',
